@@ -32,6 +32,10 @@ type backend struct {
 	delivered map[string]uint32
 	lastMeta  map[string]meta
 	streams   []map[string]any
+
+	// "hold" streams signal on started and wait for hold before reading.
+	started chan struct{}
+	hold    chan struct{}
 }
 
 func (b *backend) SaveDevicesBillingStat(srv grpc.ClientStreamingServer[backendpb.DeviceBillingStat, emptypb.Empty]) error {
@@ -42,6 +46,11 @@ func (b *backend) SaveDevicesBillingStat(srv grpc.ClientStreamingServer[backendp
 	}
 	b.streamNum++
 	b.mu.Unlock()
+	if kind == "hold" {
+		b.started <- struct{}{}
+		<-b.hold
+		kind = "ok"
+	}
 	if kind == "reject-open" {
 		return status.Error(codes.Unavailable, "scripted: rejected at open")
 	}
